@@ -71,6 +71,11 @@ func (r *Runner) execCodec(a []string) string {
 			if derr != nil || got != v || len(c) != 2 {
 				r.oracleFail("codec-roundtrip", fmt.Sprintf("varint64 %d -> %x -> %d err=%v rest=%d", v, b, got, derr, len(c)))
 			}
+			// … and with nothing after it (the last value of a stream)
+			e := append([]byte{}, b...)
+			if got, derr := enc.DecodeVarint64(&e); derr != nil || got != v || len(e) != 0 {
+				r.oracleFail("codec-roundtrip", fmt.Sprintf("varint64 %d -> %x (end of input) -> %d err=%v rest=%d", v, b, got, derr, len(e)))
+			}
 			if len(b) < 1 || len(b) > 9 || len(b) != enc.Varint64Size(v) {
 				r.oracleFail("codec-size", fmt.Sprintf("varint64 %d: len %d size %d", v, len(b), enc.Varint64Size(v)))
 			}
@@ -124,6 +129,16 @@ func (r *Runner) execCodec(a []string) string {
 			if derr != nil || math.Float64bits(got) != bits || len(c) != 1 || len(b) != 8 {
 				r.oracleFail("codec-roundtrip", fmt.Sprintf("float64LE %016x -> %x -> %016x", bits, b, math.Float64bits(got)))
 			}
+			e := append([]byte{}, b...)
+			if got, derr := enc.DecodeFloat64LE(&e); derr != nil || math.Float64bits(got) != bits || len(e) != 0 {
+				r.oracleFail("codec-roundtrip", fmt.Sprintf("float64LE %016x -> %x (end of input) -> %016x err=%v", bits, b, math.Float64bits(got), derr))
+			}
+			for k := 0; k < len(b); k++ { // every strict prefix is an end-of-input error consuming nothing
+				p := roomy(b[:k], b[len(b)-1])
+				if _, perr := enc.DecodeFloat64LE(&p); perr != io.EOF || len(p) != k {
+					r.oracleFail("codec-prefix-eof", fmt.Sprintf("float64LE %x cut at %d: err=%v rest=%d", b, k, perr, len(p)))
+				}
+			}
 		case "decf":
 			in, err := parseBytes(arg)
 			if err != nil {
@@ -154,6 +169,10 @@ func (r *Runner) execCodec(a []string) string {
 			want := (v + 1) - 1
 			if derr != nil || len(c) != 2 || !(got == want || (math.IsNaN(got) && math.IsNaN(want))) {
 				r.oracleFail("codec-roundtrip", fmt.Sprintf("varfloat64 %016x -> %x -> %v want %v err=%v", bits, b, got, want, derr))
+			}
+			e := append([]byte{}, b...)
+			if got, derr := enc.DecodeVarfloat64(&e); derr != nil || len(e) != 0 || !(got == want || (math.IsNaN(got) && math.IsNaN(want))) {
+				r.oracleFail("codec-roundtrip", fmt.Sprintf("varfloat64 %016x -> %x (end of input) -> %v want %v err=%v", bits, b, got, want, derr))
 			}
 			if len(b) < 1 || len(b) > 9 || len(b) != enc.Varfloat64Size(v) {
 				r.oracleFail("codec-size", fmt.Sprintf("varfloat64 %016x: len %d size %d", bits, len(b), enc.Varfloat64Size(v)))
@@ -217,6 +236,10 @@ func (r *Runner) codecRoundTripU(v uint64, b []byte) {
 	got, err := enc.DecodeUvarint64(&c)
 	if err != nil || got != v || len(c) != 2 {
 		r.oracleFail("codec-roundtrip", fmt.Sprintf("uvarint64 %d -> %x -> %d err=%v rest=%d", v, b, got, err, len(c)))
+	}
+	e := append([]byte{}, b...)
+	if got, err := enc.DecodeUvarint64(&e); err != nil || got != v || len(e) != 0 {
+		r.oracleFail("codec-roundtrip", fmt.Sprintf("uvarint64 %d -> %x (end of input) -> %d err=%v rest=%d", v, b, got, err, len(e)))
 	}
 	if len(b) < 1 || len(b) > 9 || len(b) != enc.Uvarint64Size(v) {
 		r.oracleFail("codec-size", fmt.Sprintf("uvarint64 %d: len %d size %d", v, len(b), enc.Uvarint64Size(v)))
